@@ -4,8 +4,9 @@
    gen_cfg is the table regenerated from mdtraj/core/selection.py on every run, ref_cfg the hand-kept copy of
    the table as found. *)
 From Coq Require Import List String ZArith Bool Sorted.
-Require Import MD.Select.Syntax MD.Select.Regex MD.Select.Model MD.Select.Run MD.Select.ParsePrint MD.Select.Proofs
-               MD.Select.Malformed MD.Select.Reference MD.Select.Precedence MD.Select.RegexProofs
+Require Import MD.Select.Syntax MD.Select.Regex MD.Select.Model MD.Select.Types MD.Select.Run MD.Select.Layout
+               MD.Select.ParsePrint MD.Select.Proofs MD.Select.Malformed MD.Select.Reference MD.Select.Precedence
+               MD.Select.RegexProofs MD.Select.LexProofs MD.Select.Sugar MD.Select.Typing
                MD.Gen.SelectTables MD.Select.GenChecks.
 Import ListNotations.
 
@@ -200,3 +201,132 @@ Theorem correspondence_shortcut_sound : forall cfg atoms ts,
   select_pair cfg atoms ts = (select_tokens cfg false atoms ts, select_tokens cfg true atoms ts).
 Proof. exact select_pair_correct. Qed.
 Print Assumptions correspondence_shortcut_sound.
+
+(* =====================================================================================================
+   Strings.  [lexcfg_ok], [tok_ok], [layout_ok] are the boolean predicates that delimit the lexer's domain:
+   operator spellings are words, words with one trailing blank, or symbolic; words are delimited, carry no operator
+   word as proper prefix, an underscore only in keywords; quoted strings hold no quote and no backslash; a blank may
+   be dropped where [follows_ok] allows (next to parentheses, between a symbolic operator and a word/number, ...). *)
+
+(* the lexer reads back every admissible layout of tokens of its domain *)
+Theorem lex_print_tokens : forall cfg l, lexcfg_ok cfg = true -> layout_ok cfg l 0 = true ->
+  lex cfg (render_string cfg l) = Some (map snd l).
+Proof. exact lex_render_string. Qed.
+Print Assumptions lex_print_tokens.
+
+(* string-level round trip, for every admissible spacing, in particular the loosest and the tightest *)
+Theorem parse_print_string_layout : forall cfg, NoDup (all_ops cfg) -> lexcfg_ok cfg = true ->
+  forall e l, wf cfg e -> map snd l = print cfg e -> layout_ok cfg l 0 = true ->
+  parse_string cfg (render_string cfg l) = Some e.
+Proof. exact parse_print_layout. Qed.
+Print Assumptions parse_print_string_layout.
+
+Theorem parse_print_string : forall cfg, NoDup (all_ops cfg) -> lexcfg_ok cfg = true ->
+  forall e, wf cfg e -> forallb (tok_ok cfg) (print cfg e) = true ->
+  parse_string cfg (print_loose cfg e) = Some e /\ parse_string cfg (print_tight cfg e) = Some e.
+Proof. exact LexProofs.parse_print_string. Qed.
+Print Assumptions parse_print_string.
+
+Example parse_print_string_nonvacuous :
+  lexcfg_ok gen_cfg = true /\ writable gen_cfg demo_tree /\
+  print_loose gen_cfg demo_tree = " not ( name CA CB or resid 1 to 3 ) and mass < 5"%string /\
+  print_tight gen_cfg demo_tree = "not (name CA CB or resid 1 to 3)and mass<5"%string.
+Proof. exact (conj gen_lexcfg_ok (conj demo_tree_writable demo_strings)). Qed.
+Print Assumptions parse_print_string_nonvacuous.
+
+(* Topology.select on the printed string is the denotation of the tree *)
+Theorem select_printed_string : forall cfg, NoDup (all_ops cfg) -> lexcfg_ok cfg = true ->
+  forall strict atoms e, writable cfg e ->
+  select_str cfg strict atoms (print_loose cfg e) = denote cfg strict atoms e /\
+  select_str cfg strict atoms (print_tight cfg e) = denote cfg strict atoms e.
+Proof.
+  exact (fun cfg Hnd Hlex strict atoms e Hw =>
+           conj (select_print_loose cfg Hnd Hlex strict atoms e Hw) (select_print_tight cfg Hnd Hlex strict atoms e Hw)).
+Qed.
+Print Assumptions select_printed_string.
+
+(* ---- the documented sugar.  Every alias of a keyword and every spelling of an operator denote the same: replacing
+   them by the first alias with the same meaning changes nothing (resid/resi, residue/resSeq, and/&&, or/||, lt/<,
+   not/!, ...), for every table without duplicate keys - in particular the regenerated one *)
+Theorem aliases_equivalent : forall cfg, NoDup (map fst (sel_kws cfg)) -> NoDup (map fst (bin_sem cfg)) ->
+  forall strict atoms e,
+    denote cfg strict atoms (respell (canon_kw cfg) (canon_op cfg) e) = denote cfg strict atoms e.
+Proof. exact canonical_aliases. Qed.
+Print Assumptions aliases_equivalent.
+
+Theorem aliases_equivalent_general : forall cfg (fk fo : string -> string),
+  (forall k, assoc (fk k) (sel_kws cfg) = assoc k (sel_kws cfg)) ->
+  (forall o, assoc (fo o) (bin_sem cfg) = assoc o (bin_sem cfg)) ->
+  forall strict atoms e, denote cfg strict atoms (respell fk fo e) = denote cfg strict atoms e.
+Proof. exact alias_same_denotation. Qed.
+Print Assumptions aliases_equivalent_general.
+
+Theorem aliases_equivalent_source_tables : forall strict atoms e,
+  denote gen_cfg strict atoms (respell (canon_kw gen_cfg) (canon_op gen_cfg) e) = denote gen_cfg strict atoms e.
+Proof. exact (canonical_aliases gen_cfg (proj1 gen_keys_nodup) (proj2 gen_keys_nodup)). Qed.
+Print Assumptions aliases_equivalent_source_tables.
+
+(* same denotation => same selection from the strings, in either spacing *)
+Theorem same_denotation_same_strings : forall cfg, NoDup (all_ops cfg) -> lexcfg_ok cfg = true ->
+  forall strict atoms e1 e2, writable cfg e1 -> writable cfg e2 ->
+    denote cfg strict atoms e1 = denote cfg strict atoms e2 ->
+    select_str cfg strict atoms (print_loose cfg e1) = select_str cfg strict atoms (print_loose cfg e2) /\
+    select_str cfg strict atoms (print_tight cfg e1) = select_str cfg strict atoms (print_tight cfg e2).
+Proof. exact same_denotation_same_selection. Qed.
+Print Assumptions same_denotation_same_strings.
+
+(* De Morgan and double negation on selections *)
+Theorem de_morgan : forall cfg strict atoms a b o o' n bo A B,
+  assoc o (bin_sem cfg) = Some (SBool bo) -> assoc o' (bin_sem cfg) = Some (SBool (dual bo)) ->
+  is_lit_expr a = false -> is_lit_expr b = false ->
+  denote cfg strict atoms a = Sel A -> denote cfg strict atoms b = Sel B ->
+  denote cfg strict atoms (EUn n (EBin a [(o, b)])) = denote cfg strict atoms (EBin (EUn n a) [(o', EUn n b)]).
+Proof. exact Sugar.de_morgan. Qed.
+Print Assumptions de_morgan.
+
+Theorem double_negation : forall cfg strict atoms a n n' A, is_lit_expr a = false ->
+  denote cfg strict atoms a = Sel A -> denote cfg strict atoms (EUn n (EUn n' a)) = Sel A.
+Proof. exact Sugar.double_negation. Qed.
+Print Assumptions double_negation.
+
+(* "k lo to hi" = "(lo <= k) and (k <= hi)";  "k v1 v2 ..." = "(k == v1) or (k == v2) or ..." (errors included) *)
+Theorem range_is_conjunction : forall cfg strict atoms k lo hi le le' an p,
+  assoc le (bin_sem cfg) = Some (SCmp CLe) -> assoc le' (bin_sem cfg) = Some (SCmp CLe) ->
+  assoc an (bin_sem cfg) = Some (SBool BAnd) ->
+  compile_expr cfg strict (ERange k lo hi) = Some p ->
+  denote cfg strict atoms (ERange k lo hi) =
+  denote cfg strict atoms (EBin (cmp_tree (ELit lo) le (EKw k)) [(an, cmp_tree (EKw k) le' (ELit hi))]).
+Proof. exact Sugar.range_is_conjunction. Qed.
+Print Assumptions range_is_conjunction.
+
+Theorem inlist_is_disjunction : forall cfg strict atoms k l1 l2 ls eq or p,
+  assoc eq (bin_sem cfg) = Some (SCmp CEq) -> assoc or (bin_sem cfg) = Some (SBool BOr) ->
+  compile_expr cfg strict (EInList k (l1 :: l2 :: ls)) = Some p ->
+  denote cfg strict atoms (EInList k (l1 :: l2 :: ls)) =
+  denote cfg strict atoms (EBin (eq_tree k eq l1) (map (fun l => (or, eq_tree k eq l)) (l2 :: ls))).
+Proof. exact Sugar.inlist_is_disjunction. Qed.
+Print Assumptions inlist_is_disjunction.
+
+(* ---- when evaluation raises.  One comparison raises TypeError exactly when it is an ordering between values of
+   different kinds (numbers incl. bool / strings / None) ... *)
+Theorem comparison_raises_iff : forall c v w,
+  cmp_apply c v w = Err TypeErr <-> is_ordering c = true /\ ord_ok (value_ty v) (value_ty w) = false.
+Proof. exact cmp_raises_iff. Qed.
+Print Assumptions comparison_raises_iff.
+
+(* ... and a compiled predicate that passes the static check [type_of] raises TypeError on no atom of no topology
+   (soundness; the check is conservative for and/or of operands of different kinds) *)
+Theorem well_typed_never_raises : forall cfg p atoms, well_typed p = true ->
+  select_py (attr cfg) p atoms <> Err TypeErr.
+Proof. exact well_typed_no_type_error. Qed.
+Print Assumptions well_typed_never_raises.
+
+Theorem well_typed_value_kind : forall env, (forall f, has_ty (env f) (field_ty f)) ->
+  forall p t, type_of p = Some t -> sound_res (py_eval env p) t.
+Proof. exact type_of_sound. Qed.
+Print Assumptions well_typed_value_kind.
+
+Theorem correspondence_typing_shortcut_sound : forall cfg atoms ts,
+  select_pair_t cfg atoms ts = (select_pair cfg atoms ts, tokens_well_typed cfg ts).
+Proof. exact select_pair_t_correct. Qed.
+Print Assumptions correspondence_typing_shortcut_sound.
